@@ -616,4 +616,17 @@ def c12_history(state, cfg, case):
     z2 = U.make_md(cfg)
     if "Z" in z2.render("`c`"):
         fails.append({"what": "a render rule added to one instance shows up in another", "key": "C12/render-rules"})
+    # two instances built from one caller-supplied preset mapping / options mapping share nothing writable with each other
+    # or with the caller's object
+    from markdown_it import MarkdownIt, presets as _presets
+
+    pre = getattr(_presets, rnd.choice(["commonmark", "default", "zero"])).make()
+    snap = repr(pre)
+    p1, p2 = MarkdownIt(pre), MarkdownIt(pre)
+    before = [p2.render(q) for q in PROBES]
+    p1.options["breaks"] = not p1.options["breaks"]
+    p1.options["html"] = not p1.options["html"]
+    p1.enable(["table"], True)
+    if [p2.render(q) for q in PROBES] != before or repr(pre) != snap:
+        fails.append({"what": "two instances built from the same preset mapping object: configuring one changed the other / the caller's mapping", "key": "C12/shared-config-object"})
     return {"sig": (case % 997, tuple(got)[0][:20]), "fail": fails}
